@@ -24,6 +24,11 @@ inductive Loc where
   | metaw (ci j : Nat)
   | entry (ci j i : Nat)
   | next (ci j : Nat)
+  /-- `Map`: the `topHashMutex` word, a key pointer cell, a value pointer cell, `next` of bucket `j` of chain `ci` -/
+  | mword (ci j : Nat)
+  | mkey (ci j i : Nat)
+  | mval (ci j i : Nat)
+  | mnext (ci j : Nat)
   deriving DecidableEq, Repr
 
 inductive Val (K V : Type) where
@@ -49,11 +54,23 @@ inductive Val (K V : Type) where
   | entry (k : K) (v : V)
   /-- address of a word / pointer cell, the argument of an atomic load -/
   | loc (l : Loc)
+  /-- `Map`: pointer to the table, its bucket slice, a bucket, the arrays `b.keys` / `b.values` -/
+  | mtablePtr
+  | mbuckets
+  | mbucketRef (ci j : Nat)
+  | keysOf (ci j : Nat)
+  | valuesOf (ci j : Nat)
+  /-- `Map`: pointer to a key (its content), pointer to a value: identified by the cell it was read from (every write
+  allocates a fresh value, so in one heap two cells never hold the same pointer), with the value it points to -/
+  | keyPtr (k : K)
+  | valPtr (ci j i : Nat) (v : V)
 
 structure Heap (K V : Type) where
   chains : List (List (BucketOf K V))
   seed : BitVec 64
   hasher : K → BitVec 64 → BitVec 64
+  /-- the table of a `Map` (string keys): chains of `BucketM` -/
+  mchains : List (List (BucketM K V)) := []
 
 variable {K V : Type} [DecidableEq K]
 
@@ -64,6 +81,9 @@ inductive Out (K V : Type) where
   | normal (env : Env K V)
   | brk (env : Env K V)
   | ret (vs : List (Val K V))
+  /-- `continue`: on to the post statement / next iteration of the innermost loop -/
+  | cont (env : Env K V)
+  | goto (l : String) (env : Env K V)
 
 def setVar (x : String) (v : Val K V) : Env K V → Option (Env K V)
   | [] => none
@@ -74,6 +94,11 @@ def bucketAt (h : Heap K V) (ci j : Nat) : Option (BucketOf K V) :=
   | some c => c[j]?
   | none => none
 
+def mbucketAt (h : Heap K V) (ci j : Nat) : Option (BucketM K V) :=
+  match h.mchains[ci]? with
+  | some c => c[j]?
+  | none => none
+
 def leaf1 (f : String) (a : Val K V) : Option (Val K V) :=
   match f, a with
   | "h1", .w64 w => some (.w64 (Gen.h1 w))
@@ -81,7 +106,14 @@ def leaf1 (f : String) (a : Val K V) : Option (Val K V) :=
   | "broadcast", .w8 b => some (.w64 (Gen.broadcast b))
   | "markZeroBytes", .w64 w => some (.w64 (Gen.markZeroBytes w))
   | "firstMarkedByteIndex", .w64 w => some (.int (Gen.firstMarkedByteIndex w))
+  | "derefKey", .keyPtr k => some (.key k)
+  | "derefValue", .valPtr _ _ _ v => some (.val v)
   | _, _ => none
+
+def leaf3 (f : String) (a b c : Val K V) : Option (Val K V) :=
+  match f, a, b, c with
+  | "topHashMatch", .w64 x, .w64 y, .int n => if 0 ≤ n then some (.bool (Gen.topHashMatch x y n.toNat)) else none
+  | _, _, _, _ => none
 
 def constOf (c : String) : Option (Val K V) :=
   match c with
@@ -90,6 +122,7 @@ def constOf (c : String) : Option (Val K V) :=
   | "defaultMetaMasked" => some (.w64 Gen.defaultMetaMasked)
   | "emptyMetaSlot" => some (.w8 Gen.emptyMetaSlot)
   | "entriesPerMapOfBucket" => some (.int Gen.entriesPerMapOfBucket)
+  | "entriesPerMapBucket" => some (.int Gen.entriesPerMapBucket)
   | _ => none
 
 def isPtr : Val K V → Option Bool
@@ -97,6 +130,10 @@ def isPtr : Val K V → Option Bool
   | .tablePtr => some true
   | .bucketRef _ _ => some true
   | .entry _ _ => some true
+  | .mtablePtr => some true
+  | .mbucketRef _ _ => some true
+  | .keyPtr _ => some true
+  | .valPtr _ _ _ _ => some true
   | _ => none
 
 def binop (op : BOp) (a b : Val K V) : Option (Val K V) :=
@@ -115,6 +152,9 @@ def binop (op : BOp) (a b : Val K V) : Option (Val K V) :=
   | .eq, .key x, .key y => some (.bool (decide (x = y)))
   | .ne, .key x, .key y => some (.bool (!decide (x = y)))
   | .land, .bool x, .bool y => some (.bool (x && y))
+  | .lt, .int x, .int y => some (.bool (decide (x < y)))
+  -- two value pointers of `Map`: the same cell
+  | .eq, .valPtr ci j i _, .valPtr ci' j' i' _ => some (.bool (decide (ci = ci' ∧ j = j' ∧ i = i')))
   -- pointer against nil (pointers to different kinds of object are never compared by the lookup path)
   | .eq, p, .ptrNil => (isPtr p).map fun nn => .bool (!nn)
   | .ne, p, .ptrNil => (isPtr p).map fun nn => .bool nn
@@ -129,6 +169,11 @@ def conv (t : String) (v : Val K V) : Option (Val K V) :=
   | "*entryOf", .ptrNil => some .ptrNil
   | "*bucketOfPadded", .bucketRef ci j => some (.bucketRef ci j)
   | "*bucketOfPadded", .ptrNil => some .ptrNil
+  | "*mapTable", .tablePtr => some .mtablePtr
+  | "*bucketPadded", .mbucketRef ci j => some (.mbucketRef ci j)
+  | "*bucketPadded", .ptrNil => some .ptrNil
+  | "uintptr", .valPtr ci j i v => some (.valPtr ci j i v)
+  | "uintptr", .ptrNil => some .ptrNil
   | _, _ => none
 
 def selField (h : Heap K V) (v : Val K V) (f : String) : Option (Val K V) :=
@@ -138,6 +183,10 @@ def selField (h : Heap K V) (v : Val K V) (f : String) : Option (Val K V) :=
   | .entry k _, "key" => some (.key k)
   | .entry _ v, "value" => some (.val v)
   | .bucketRef ci j, "entries" => some (.entriesOf ci j)
+  | .mtablePtr, "seed" => some (.w64 h.seed)
+  | .mtablePtr, "buckets" => some .mbuckets
+  | .mbucketRef ci j, "keys" => some (.keysOf ci j)
+  | .mbucketRef ci j, "values" => some (.valuesOf ci j)
   | _, _ => none
 
 /-- the address `&e` of the addressable expressions of the lookup path -/
@@ -145,6 +194,8 @@ def addrOf (base : Val K V) (f : String) : Option (Val K V) :=
   match base, f with
   | .bucketRef ci j, "meta" => some (.loc (.metaw ci j))
   | .bucketRef ci j, "next" => some (.loc (.next ci j))
+  | .mbucketRef ci j, "topHashMutex" => some (.loc (.mword ci j))
+  | .mbucketRef ci j, "next" => some (.loc (.mnext ci j))
   | _, _ => none
 
 def atomicLoad (h : Heap K V) (kind : String) (a : Val K V) : Option (Val K V) :=
@@ -163,6 +214,28 @@ def atomicLoad (h : Heap K V) (kind : String) (a : Val K V) : Option (Val K V) :
     match h.chains[ci]? with
     | some c => if j + 1 < c.length then some (.bucketRef ci (j + 1)) else if j < c.length then some .ptrNil else none
     | none => none
+  -- `Map`: the table pointer is the same cell `m.table`; which kind of table it is shows in the conversion applied
+  | "Uint64", .loc (.mword ci j) => (mbucketAt h ci j).map fun b => .w64 b.word
+  | "Pointer", .loc (.mkey ci j i) =>
+    match mbucketAt h ci j with
+    | some b =>
+      (match b.slots[i]? with
+       | some (some (k, _)) => some (.keyPtr k)
+       | some none => some .ptrNil
+       | none => none)
+    | none => none
+  | "Pointer", .loc (.mval ci j i) =>
+    match mbucketAt h ci j with
+    | some b =>
+      (match b.slots[i]? with
+       | some (some (_, v)) => some (.valPtr ci j i v)
+       | some none => some .ptrNil
+       | none => none)
+    | none => none
+  | "Pointer", .loc (.mnext ci j) =>
+    match h.mchains[ci]? with
+    | some c => if j + 1 < c.length then some (.mbucketRef ci (j + 1)) else if j < c.length then some .ptrNil else none
+    | none => none
   | _, _ => none
 
 def eval (h : Heap K V) (env : Env K V) : Expr → Option (Val K V)
@@ -175,7 +248,15 @@ def eval (h : Heap K V) (env : Env K V) : Expr → Option (Val K V)
     match eval h env a, eval h env b with
     | some x, some y => binop op x y
     | _, _ => none
+  | .not e =>
+    match eval h env e with
+    | some (.bool b) => some (.bool (!b))
+    | _ => none
   | .call1 f a => (eval h env a).bind (leaf1 f)
+  | .call3 f a b c =>
+    match eval h env a, eval h env b, eval h env c with
+    | some x, some y, some z => leaf3 f x y z
+    | _, _, _ => none
   | .hash k s =>
     match eval h env k, eval h env s with
     | some (.key k), some (.w64 s) => some (.w64 (h.hasher k s))
@@ -183,6 +264,7 @@ def eval (h : Heap K V) (env : Env K V) : Expr → Option (Val K V)
   | .len e =>
     match eval h env e with
     | some .buckets => some (.int h.chains.length)
+    | some .mbuckets => some (.int h.mchains.length)
     | _ => none
   | .conv t e => (eval h env e).bind (conv t)
   | .sel e f => (eval h env e).bind (selField h · f)
@@ -194,6 +276,9 @@ def eval (h : Heap K V) (env : Env K V) : Expr → Option (Val K V)
     | some .buckets, some (.w64 w) => if w.toNat < h.chains.length then some (.bucketRef w.toNat 0) else none
     | some (.entriesOf ci j), some (.int n) =>
       if 0 ≤ n then some (.loc (.entry ci j n.toNat)) else none
+    | some .mbuckets, some (.w64 w) => if w.toNat < h.mchains.length then some (.mbucketRef w.toNat 0) else none
+    | some (.keysOf ci j), some (.int n) => if 0 ≤ n then some (.loc (.mkey ci j n.toNat)) else none
+    | some (.valuesOf ci j), some (.int n) => if 0 ≤ n then some (.loc (.mval ci j n.toNat)) else none
     | _, _ => none
   | .addr _ => none
   | .atomicLoad kind a => (eval h env a).bind (atomicLoad h kind)
@@ -221,18 +306,41 @@ def loopN (body : Env K V → Option (Out K V)) : Nat → Env K V → Option (Ou
     | some (.normal env') => loopN body n env'
     | some (.brk env') => some (.normal env')
     | some (.ret vs) => some (.ret vs)
+    | some (.cont env') => loopN body n env'
+    | some (.goto l env') => some (.goto l env')
     | none => none
+
+/-- the statements after a label, re-entered by `goto l` (at most `n` times) -/
+def labelN (l : String) (body : Env K V → Option (Out K V)) : Nat → Env K V → Option (Out K V)
+  | 0, _ => none
+  | n + 1, env =>
+    match body env with
+    | some (.goto l' env') => if l' = l then labelN l body n env' else some (.goto l' env')
+    | r => r
 
 /-- leave a scope: forget the names declared inside (assignments to outer names stay) -/
 def leave (outer : Env K V) : Option (Out K V) → Option (Out K V)
   | some (.normal env) => some (.normal (env.drop (env.length - outer.length)))
   | some (.brk env) => some (.brk (env.drop (env.length - outer.length)))
+  | some (.cont env) => some (.cont (env.drop (env.length - outer.length)))
+  | some (.goto l env) => some (.goto l (env.drop (env.length - outer.length)))
   | r => r
 
 /-- the condition-and-body of one iteration of `for c { body }` -/
 def iter (c : Env K V → Option (Val K V)) (body : Env K V → Option (Out K V)) (env : Env K V) : Option (Out K V) :=
   match c env with
   | some (.bool true) => body env
+  | some (.bool false) => some (.brk env)
+  | _ => none
+
+/-- one iteration of `for init; c; post { body }`: condition, body, then - also after `continue` - the post statement -/
+def iter3 (c : Env K V → Option (Val K V)) (body post : Env K V → Option (Out K V)) (env : Env K V) : Option (Out K V) :=
+  match c env with
+  | some (.bool true) =>
+    (match body env with
+     | some (.normal env') => post env'
+     | some (.cont env') => post env'
+     | r => r)
   | some (.bool false) => some (.brk env)
   | _ => none
 
@@ -258,6 +366,19 @@ def exec (fuel : Nat) (h : Heap K V) (res : List String) : Stmt → Env K V → 
   | .retBare, env => (readAll env res).map .ret
   | .forever body, env => loopN (fun env => exec fuel h res body env) fuel env
   | .while c body, env => loopN (iter (fun env => eval h env c) (fun env => exec fuel h res body env)) fuel env
+  | .for3 init c post body, env =>
+    leave env (match exec fuel h res init env with
+      | some (.normal env1) =>
+        loopN (iter3 (fun env => eval h env c) (fun env => exec fuel h res body env) (fun env => exec fuel h res post env))
+          fuel env1
+      | r => r)
+  | .continue, env => some (.cont env)
+  | .incr x, env =>
+    match env.lookup x with
+    | some (.int n) => (setVar x (.int (n + 1)) env).map .normal
+    | _ => none
+  | .labeled l s, env => labelN l (fun env => exec fuel h res s env) fuel env
+  | .goto l, env => some (.goto l env)
   | .block s, env => leave env (exec fuel h res s env)
 
 def zeroOf : Ty → Val K V
